@@ -59,7 +59,11 @@ func (k *zz26Priv) Sign(data []byte) ([]byte, error) {
 	if len(data) >= 16 && string(data[:15]) == "ipns-signature:" {
 		d = data[15]
 	}
-	return []byte{k.id, d}, nil
+	sig := []byte{k.id, d}
+	if zz26RealSizes {
+		sig = append(sig, make([]byte, 62)...) // an Ed25519 signature is 64 bytes
+	}
+	return sig, nil
 }
 
 // bound to ic.MarshalPublicKey
@@ -100,6 +104,9 @@ func zz26ExtractPublicKey(id peer.ID) (ic.PubKey, error) {
 // bound to util.FormatRFC3339
 func zz26FormatRFC3339(t time.Time) string {
 	out := make([]byte, 12)
+	if zz26RealSizes {
+		out = make([]byte, 20) // "2100-01-01T00:00:00Z": whole seconds, 4-digit year
+	}
 	binary.BigEndian.PutUint64(out[0:8], uint64(t.Unix()))
 	binary.BigEndian.PutUint32(out[8:12], uint32(t.Nanosecond()))
 	return string(out)
@@ -108,7 +115,7 @@ func zz26FormatRFC3339(t time.Time) string {
 // bound to util.ParseRFC3339
 func zz26ParseRFC3339(s string) (time.Time, error) {
 	b := []byte(s)
-	if len(b) != 12 {
+	if len(b) != 12 && len(b) != 20 {
 		return time.Time{}, ErrInvalidValidity
 	}
 	sec := int64(binary.BigEndian.Uint64(b[0:8]))
@@ -124,7 +131,11 @@ var zz26Docs []datamodel.Node
 // bound to dagcbor.Encode
 func zz26CborEncode(n datamodel.Node, w io.Writer) error {
 	zz26Docs = append(zz26Docs, n)
-	_, err := w.Write([]byte{byte(len(zz26Docs)), 0xcb})
+	out := []byte{byte(len(zz26Docs)), 0xcb}
+	if zz26RealSizes {
+		out = append(out, make([]byte, zz26CborLen(n)-2)...)
+	}
+	_, err := w.Write(out)
 	return err
 }
 
@@ -147,12 +158,16 @@ var zz26Msgs []*ipns_pb.IpnsRecord
 // bound to proto.Marshal
 func zz26ProtoMarshal(m proto.Message) ([]byte, error) {
 	zz26Msgs = append(zz26Msgs, m.(*ipns_pb.IpnsRecord))
-	return []byte{byte(len(zz26Msgs)), 0x9b}, nil
+	out := []byte{byte(len(zz26Msgs)), 0x9b}
+	if zz26RealSizes {
+		out = append(out, make([]byte, zz26WireSize(m.(*ipns_pb.IpnsRecord))-2)...)
+	}
+	return out, nil
 }
 
 // bound to proto.Unmarshal
 func zz26ProtoUnmarshal(b []byte, m proto.Message) error {
-	if len(b) != 2 || b[1] != 0x9b || b[0] == 0 || int(b[0]) > len(zz26Msgs) {
+	if len(b) < 2 || (len(b) != 2 && !zz26RealSizes) || b[1] != 0x9b || b[0] == 0 || int(b[0]) > len(zz26Msgs) {
 		return errors.New("zz26: not a message produced on this path")
 	}
 	src, dst := zz26Msgs[b[0]-1], m.(*ipns_pb.IpnsRecord)
@@ -180,7 +195,91 @@ func zz26ProtoUnmarshal(b []byte, m proto.Message) error {
 }
 
 // bound to proto.Size (small records only in this check)
-func zz26ProtoSize(m proto.Message) int { return 100 }
+func zz26ProtoSize(m proto.Message) int {
+	if zz26RealSizes {
+		return zz26WireSize(m.(*ipns_pb.IpnsRecord))
+	}
+	return 100
+}
+
+// zz26RealSizes (size-boundary entry only, all numbers concrete there): the codec models produce encodings of
+// the real length, so that the size guards of Validate and UnmarshalRecord see what they see natively.
+var zz26RealSizes bool
+
+func zz26VarintLen(v uint64) int {
+	n := 1
+	for v >= 0x80 {
+		v >>= 7
+		n++
+	}
+	return n
+}
+
+// zz26WireSize: protobuf wire size of an IpnsRecord (all field numbers < 16: one tag byte each).
+func zz26WireSize(m *ipns_pb.IpnsRecord) int {
+	n := 0
+	for _, b := range [][]byte{m.Value, m.SignatureV1, m.Validity, m.PubKey, m.SignatureV2, m.Data} {
+		if b != nil {
+			n += 1 + zz26VarintLen(uint64(len(b))) + len(b)
+		}
+	}
+	if m.ValidityType != nil {
+		n += 1 + zz26VarintLen(uint64(int64(*m.ValidityType)))
+	}
+	if m.Sequence != nil {
+		n += 1 + zz26VarintLen(*m.Sequence)
+	}
+	if m.Ttl != nil {
+		n += 1 + zz26VarintLen(*m.Ttl)
+	}
+	return n
+}
+
+func zz26CborHdr(v uint64) int {
+	switch {
+	case v < 24:
+		return 1
+	case v < 1<<8:
+		return 2
+	case v < 1<<16:
+		return 3
+	case v < 1<<32:
+		return 5
+	}
+	return 9
+}
+
+// zz26CborLen: DAG-CBOR length of a flat map of scalars.
+func zz26CborLen(n datamodel.Node) int {
+	total := zz26CborHdr(uint64(n.Length()))
+	for it := n.MapIterator(); !it.Done(); {
+		k, v, err := it.Next()
+		if err != nil {
+			panic(err)
+		}
+		ks, _ := k.AsString()
+		total += zz26CborHdr(uint64(len(ks))) + len(ks)
+		switch v.Kind() {
+		case datamodel.Kind_Bytes:
+			b, _ := v.AsBytes()
+			total += zz26CborHdr(uint64(len(b))) + len(b)
+		case datamodel.Kind_String:
+			x, _ := v.AsString()
+			total += zz26CborHdr(uint64(len(x))) + len(x)
+		case datamodel.Kind_Int:
+			i, _ := v.AsInt()
+			if i < 0 {
+				i = -1 - i
+			}
+			total += zz26CborHdr(uint64(i))
+		case datamodel.Kind_Bool:
+			total++
+		default:
+			panic("zz26CborLen: unsupported kind")
+		}
+	}
+	return total
+}
 
 // bound to proto.Uint64
 func zz26ProtoUint64(v uint64) *uint64 { return &v }
@@ -524,5 +623,69 @@ func HarnessC26Metadata() {
 	rec2, err := UnmarshalRecord(enc)
 	verifrt.Assert("C26.unmarshal-succeeds", err == nil && rec2 != nil)
 	check(rec2, "decoded")
+	verifrt.Reach("end")
+}
+
+// =====================================================================================================
+// Entry 3: records at the size limit: creation, validation and the marshal/unmarshal round trip agree
+// =====================================================================================================
+
+func zz26SizeOf(r *Record) int {
+	if verifrt.Symbolic() {
+		return zz26WireSize(r.pb)
+	}
+	return proto.Size(r.pb)
+}
+
+func HarnessC26SizeBoundary() {
+	zz26Docs, zz26Msgs = nil, nil
+	zz26RealSizes = true
+	defer func() { zz26RealSizes = false }()
+	sk := zz26Key(0)
+	value, err := path.NewPath("/ipfs/bafkqaaa")
+	if err != nil {
+		panic(err)
+	}
+	const seq, ttl = uint64(1), time.Duration(0)
+	eol := time.Unix(4102444800, 0) // 2100-01-01T00:00:00Z
+	v1 := verifrt.NondetRange("v1compat", 0, 1) == 1
+	mk := func(pad int) *Record {
+		r, err := NewRecord(sk, value, seq, eol, ttl, WithV1Compatibility(v1), WithMetadata(map[string]any{"_pad": make([]byte, pad)}))
+		verifrt.Assert("C26.newrecord-succeeds", err == nil && r != nil)
+		return r
+	}
+	// the encoded size is linear in the padding between 256 and 16000 bytes: measure once, then hit the target
+	d := verifrt.NondetRange("d", -2, 2)
+	probe := zz26SizeOf(mk(5000))
+	rec := mk(5000 + MaxRecordSize + d - probe)
+	size := zz26SizeOf(rec)
+	verifrt.Observe("size", size)
+	verifrt.Assert("C26.boundary-harness-hits-target", size == MaxRecordSize+d)
+
+	vErr := Validate(rec, sk.GetPublic())
+	verifrt.Observe("validates", vErr == nil)
+	enc, err := MarshalRecord(rec)
+	verifrt.Assert("C26.marshal-succeeds", err == nil)
+	verifrt.Assert("C26.boundary-encoding-has-that-size", len(enc) == size)
+	rec2, uErr := UnmarshalRecord(enc)
+	verifrt.Observe("decodes", uErr == nil)
+	if size <= MaxRecordSize {
+		verifrt.Assert("C26.boundary-record-within-limit-validates", vErr == nil)
+		verifrt.Assert("C26.boundary-record-within-limit-decodes", uErr == nil && rec2 != nil)
+	}
+	// the two size guards draw the same line
+	verifrt.Assert("C26.boundary-decode-agrees-with-validate", (uErr == nil) == (vErr == nil))
+	if uErr == nil {
+		s, err := rec2.Sequence()
+		verifrt.Assert("C26.decoded-sequence", err == nil && s == seq)
+		p, err := rec2.Value()
+		verifrt.Assert("C26.decoded-value", err == nil && p.String() == value.String())
+		mv, err := rec2.Metadata("_pad")
+		verifrt.Assert("C26.decoded-metadata-found", err == nil)
+		b, err := mv.AsBytes()
+		verifrt.Assert("C26.decoded-metadata-value", err == nil && len(b) == 5000+MaxRecordSize+d-probe)
+		verifrt.Assert("C26.decoded-validates-with-key", Validate(rec2, sk.GetPublic()) == nil)
+		verifrt.Reach("decoded")
+	}
 	verifrt.Reach("end")
 }
